@@ -1,13 +1,34 @@
+// Command probe renders an HTML document given on stdin (debugging helper).
 package main
 
 import (
+	"flag"
 	"fmt"
+	"io"
+	"os"
+
 	"verif/internal/wr"
 )
 
 func main() {
-	_, err := wr.NewPangoConfig()
-	fmt.Println(err)
-	_, err = wr.NewGotextConfig()
-	fmt.Println(err)
+	engine := flag.String("engine", "pango", "")
+	hints := flag.Bool("hints", false, "")
+	trace := flag.Bool("trace", false, "print the canonical trace")
+	flag.Parse()
+	b, _ := io.ReadAll(os.Stdin)
+	r, err := wr.Render(wr.Opts{HTML: string(b), Engine: *engine, Hints: *hints})
+	if err != nil {
+		fmt.Println("error:", err)
+		return
+	}
+	fmt.Println("pages:", len(r.Document.Pages), "events:", len(r.Rec.Events), "hash:", r.Rec.Hash())
+	for _, w := range r.Warnings {
+		fmt.Println("warning:", w)
+	}
+	for _, v := range r.Rec.Violations {
+		fmt.Println("protocol:", v)
+	}
+	if *trace {
+		fmt.Print(r.Rec.Canonical())
+	}
 }
